@@ -220,9 +220,9 @@ func c10Cases(c runCfg) ([]*scratch.Pkg, []string, map[string]interface{}) {
 				var pl c10plan
 				var r dialect.Response
 				switch {
-				case key == "default" && (rng.Intn(2) == 0 || pi%6 == 5):
+				case key == "default" && (rng.Intn(2) == 0 || (pi%6 == 5 && oi == 0)):
 					cm := dfltComps[0]
-					if pi%6 == 5 {
+					if pi%6 == 5 && oi == 0 {
 						// a component that other operations use under a status code: the generator refuses such a document (a
 						// component response is either a default one or a status-coded one); were it accepted, the values below
 						// would not fit the generated type and the run would show it
@@ -234,7 +234,7 @@ func c10Cases(c runCfg) ([]*scratch.Pkg, []string, map[string]interface{}) {
 					cm := codeComps[[]int{0, 2}[len(plans)]]
 					r, pl = dialect.Response{Status: key, Ref: cm.name}, cm.pl
 					stats["component-and-its-alias"]++
-				case key != "default" && (rng.Intn(3) == 0 || (pi%6 == 5 && oi == 1 && len(plans) == 0)):
+				case key != "default" && !(pi%6 == 5 && oi == 0) && (rng.Intn(3) == 0 || (pi%6 == 5 && oi == 1 && len(plans) == 0)):
 					cm := codeComps[rng.Intn(len(codeComps))]
 					if pi%6 == 5 && oi == 1 && len(plans) == 0 {
 						// every sixth document uses one component both ways, whatever the seed: under a status here (directly
